@@ -410,7 +410,10 @@ def build(spec, plain=False):
             m.facilities.append(f)
             m.byname[f.ID] = f
         for ti in wps.get("targets", []):
-            wp.append_targeted_task(m.tasks[ti])
+            if ti in (wps.get("targets_ctor") or []):
+                wp.targeted_task_list.append(m.tasks[ti])  # as the constructor keyword targeted_task_list does: the task is not told
+            else:
+                wp.append_targeted_task(m.tasks[ti])
         m.workplaces.append(wp)
         m.byname[wp.ID] = wp
     for i, wps in enumerate(spec.get("workplaces", [])):
